@@ -10,6 +10,7 @@ pub(super) mod constants {
     pub(super) const KB: usize = 1024;
     /// Buffer size used for reading - TODO: Find out optimal size for best performance!
     pub(super) const BUF_SIZE: usize = 4 * KB;
+    pub(super) const WINDOW_SIZE: usize = 64;
     /// Random polynomial maximum tries.
     pub(super) const RAND_POLY_MAX_TRIES: i32 = 1_000_000;
 }
@@ -19,12 +20,20 @@ pub(crate) fn check_rabin_params(
     chunk_min_size: usize,
     chunk_max_size: usize,
 ) -> RusticResult<()> {
-    if (chunk_size & (chunk_size - 1)) != 0 {
+    if !chunk_size.is_power_of_two() {
         return Err(RusticError::new(
             ErrorKind::Unsupported,
             "Chunk size must be a power of 2 for the rabin chunker. chunk size = {chunk_size}.",
         )
         .attach_context("chunk_size", chunk_size.to_string()));
+    }
+    if chunk_min_size < constants::WINDOW_SIZE {
+        return Err(RusticError::new(
+            ErrorKind::Unsupported,
+            "Chunk min size must be at least {window_size} bytes (the size of the rolling hash window) for the rabin chunker. chunk min size = {chunk_min_size}.",
+        )
+        .attach_context("window_size", constants::WINDOW_SIZE.to_string())
+        .attach_context("chunk_min_size", chunk_min_size.to_string()));
     }
     if chunk_min_size > chunk_size {
         return Err(RusticError::new(
@@ -115,12 +124,12 @@ impl<R: Read + Send> Iterator for ChunkIter<R> {
         let mut min_size = self.min_size;
         let mut vec = Vec::with_capacity(self.size_hint.min(min_size));
 
-        // check if some bytes exist in the buffer and if yes, use them
-        let open_buf_len = self.buf.len() - self.pos;
+        // check if some bytes exist in the buffer and if yes, use them - but not more than min_size:
+        // the remaining bytes have to be passed through the rolling hash
+        let open_buf_len = (self.buf.len() - self.pos).min(min_size);
         if open_buf_len > 0 {
-            vec.resize(open_buf_len, 0);
-            vec.copy_from_slice(&self.buf[self.pos..]);
-            self.pos = self.buf.len();
+            vec.extend_from_slice(&self.buf[self.pos..self.pos + open_buf_len]);
+            self.pos += open_buf_len;
             min_size -= open_buf_len;
         }
 
@@ -148,7 +157,11 @@ impl<R: Read + Send> Iterator for ChunkIter<R> {
 
         _ = self
             .rabin
-            .reset_and_prefill_window(&mut vec[vec.len() - 64..vec.len()].iter().copied());
+            .reset_and_prefill_window(
+                &mut vec[vec.len() - constants::WINDOW_SIZE..vec.len()]
+                    .iter()
+                    .copied(),
+            );
 
         loop {
             if vec.len() >= self.max_size {
